@@ -32,6 +32,7 @@ ASSUMPTIONS = [
     "values are only evaluated to classify a failure",
 ]
 KF_REGROUP = "C06-nary-bitwise-logical-regrouped"
+KF_SUBTUPLE = "C06-subscript-short-tuple-index-printed-bare"
 
 A, B, C, D = (p.Variable(n) for n in "abcd")
 F_ = p.Variable("f")
@@ -61,6 +62,9 @@ NODES = {
     "callkw": (2, lambda c: p.CallWithKwargs(F_, (c[0],), immutabledict({"k": c[1]}))),
     "sub": (1, lambda c: p.Subscript(A, c[0])), "subagg": (1, lambda c: p.Subscript(c[0], B)),
     "subt": (2, lambda c: p.Subscript(A, tuple(c))),
+    "subt1": (1, lambda c: p.Subscript(A, (c[0],))),
+    "subt0": (1, lambda c: p.Sum((p.Subscript(A, ()), c[0]))),
+    "subtnest": (1, lambda c: p.Subscript(A, ((c[0],),))),
     "slice2": (2, lambda c: p.Subscript(A, p.Slice(tuple(c)))),
     "slice3": (3, lambda c: p.Subscript(A, p.Slice(tuple(c)))),
     "look": (1, lambda c: p.Lookup(c[0], "attr")),
@@ -117,6 +121,30 @@ def regroup_key(e):
     return normal.typed_key(e)
 
 
+def has_short_tuple_index(e, n=(0, 1)):
+    return any(isinstance(x, p.Subscript) and isinstance(x.index, tuple) and len(x.index) in n
+               for x in G.walk(e))
+
+
+def unwrap_indices(e):
+    """every subscript index that is a one-element tuple replaced by that element (repeatedly)"""
+    def go(x):
+        if isinstance(x, p.Subscript):
+            idx = x.index
+            while isinstance(idx, tuple) and len(idx) == 1:
+                idx = idx[0]
+            return p.Subscript(go(x.aggregate), go(idx))
+        if isinstance(x, p.Expression) and normal.is_expr_dataclass(type(x)):
+            import dataclasses
+            return type(x)(*[go(getattr(x, f.name)) for f in dataclasses.fields(x)])
+        if isinstance(x, tuple):
+            return tuple(go(c) for c in x)
+        if isinstance(x, immutabledict):
+            return immutabledict({k: go(v) for k, v in x.items()})
+        return x
+    return go(e)
+
+
 @check("C06.roundtrip")
 def c_roundtrip(ctx, case):
     (e,) = case
@@ -135,21 +163,61 @@ def c_roundtrip(ctx, case):
     except RecursionError:
         raise
     except Exception as ex:  # noqa: BLE001
-        ctx.fail("C06.roundtrip", case, f"parse-raised:{type(ex).__name__}:{_edge(e)}",
-                 f"{G.src(e)} prints as {s!r}, which the parser rejects: {type(ex).__name__}: {ex}")
-        return
-    if normal.flat_key(e2) != normal.flat_key(e):
         finding = None
+        if has_short_tuple_index(e, (0,)) and "[]" in s and type(ex).__name__ == "ParseError":
+            finding = KF_SUBTUPLE       # a[()] prints as 'a[]'
+        ctx.fail("C06.roundtrip", case, f"parse-raised:{type(ex).__name__}:{_edge(e)}",
+                 f"{G.src(e)} prints as {s!r}, which the parser rejects: {type(ex).__name__}: {ex}",
+                 finding=finding)
+        return
+    finding = None
+    if normal.flat_key(e2) != normal.flat_key(e):
         if has_regroup_site(e) and regroup_key(e2) == regroup_key(e):
             finding = KF_REGROUP
+        elif has_short_tuple_index(e, (1,)) \
+                and regroup_key(unwrap_indices(e2)) == regroup_key(unwrap_indices(e)):
+            finding = KF_SUBTUPLE
         ctx.fail("C06.roundtrip", case, f"tree:{_edge(e, e2)}",
                  f"{G.src(e)} prints as {s!r}, which parses to {G.src(e2)}", finding=finding)
         if finding is None:
             return
     s2 = str(e2)
     if s2 != s:
+        f2 = None
+        if finding == KF_SUBTUPLE and str(unwrap_indices(e2)) == str(unwrap_indices(e)):
+            f2 = KF_SUBTUPLE    # a[((k,),)] -> 'a[(k,)]' -> a[(k,)] -> 'a[k]'
         ctx.fail("C06.roundtrip", case, f"reprint:{type(e).__name__}",
-                 f"{G.src(e)} prints as {s!r}; the reparsed expression prints as {s2!r}")
+                 f"{G.src(e)} prints as {s!r}; the reparsed expression prints as {s2!r}", finding=f2)
+
+
+@check("C06.reuse")
+def c_reuse(ctx, case):
+    """One printer object used for many expressions, most of them short-lived (built in a loop
+    and dropped): each text must be what a fresh printer gives for THAT expression."""
+    seed, n = case
+    from collections import Counter
+    rng = ctx.sub_rng("reuse", seed)
+    m = strmod.StringifyMapper()
+    for i in range(n):
+        e = rand_tree(rng, rng.randint(1, 4), Counter())
+        if not isinstance(e, p.Expression):
+            continue
+        ctx.case(None)
+        ctx.count("reused_printer_calls")
+        try:
+            got = m(e)
+            want = strmod.StringifyMapper()(e)
+        except RecursionError:
+            raise
+        except Exception as ex:  # noqa: BLE001
+            ctx.fail("C06.reuse", case, f"reuse:raised:{type(ex).__name__}", f"{G.src(e)}: {ex}")
+            return
+        if got != want:
+            ctx.fail("C06.reuse", case, "reuse:text-differs",
+                     f"call {i} on one StringifyMapper object: {G.src(e)} printed as {got!r}; a "
+                     f"fresh printer gives {want!r}")
+            return
+        del e
 
 
 def _edge(e, e2=None):
@@ -244,8 +312,12 @@ def workload(ctx):
             if i < 3:
                 ctx.sample("random-deep", str(e))
             ctx.run("C06.roundtrip", (e,))
+        for i in range(ctx.per_shard(ctx.pick(16, 160))):
+            ctx.case(("reuse", ctx.seed, ctx.shard, i), True, n=0)
+            ctx.run("C06.reuse", ((ctx.seed, ctx.shard, i), 60))
         for k, v in tr.handlers().items():
             ctx.count("handler:" + k, v)
+    ctx.floor("reused_printer_calls", 500)
     ctx.floor("exhaustive_edges", 1500)
     ctx.floor("three_level", 2000)
     ctx.floor("roundtrips", 8000)
